@@ -28,4 +28,9 @@ CLAIMED['C11'] = {
     'text': 'For every number of samples and of carrier / AM bins (M, K enumerated 1..2) each sample is proved to be folded into exactly the column that unfolds to its (AM bin, carrier bin) cell, the output to be the unfolded matrix with exactly the out-of-range margins trimmed, and shape [T x AM x carrier]; sum/mean are the column sums/means of the same matrix (assumed scipy contract).',
     'note': PROOF_NOTE + 'scipy.sparse duplicate summation / sum / mean and np.digitize are assumed contracts.',
 }
+CLAIMED['C14'] = {
+    'technique': 'deductive: loop invariant + postcondition of get_cycle_stat_from_samples with an uninterpreted reducing function and np.where as a function of the label; project_cycles_to_samples contract; bounded stand-in: all label vectors <= 6/8 x reducers x output modes, phase_align / bin_by_phase grids',
+    'text': 'The per-cycle statistic is proved to be the supplied (arbitrary) function applied to exactly the samples carrying each label, one entry per cycle, and the projection to be constant within cycles and NaN elsewhere, for all lengths and labellings. phase_align and bin_by_phase (scipy interpolation, generator iteration, averages of possibly empty selections) are decided by the bounded stand-in only and are reported as not covered by the proof.',
+    'note': PROOF_NOTE + 'phase_align / bin_by_phase clauses are bounded (run-time contracts over stated grids).',
+}
 PENDING_REASON = {}
